@@ -199,10 +199,10 @@ theorem getPathVal_nonobj_cons (v : Val) (k : String) (rest : List String) (h : 
   cases v <;> simp_all [getPathVal, Val.isObj]
 
 theorem keyOf_nil (p : String) : keyOf p [] = p := rfl
-theorem keyOf_cons (p k : String) (rest : List String) : keyOf p (k :: rest) = keyOf (p ++ "." ++ k) rest := rfl
+theorem keyOf_cons (p k : String) (rest : List String) : keyOf p (k :: rest) = keyOf (p ++ "." ++ esc k) rest := rfl
 
-theorem path_some (p k : String) : path (some p) k = p ++ "." ++ k := rfl
-theorem path_none (k : String) : path none k = k := rfl
+theorem path_some (p k : String) : path (some p) k = p ++ "." ++ esc k := rfl
+theorem path_none (k : String) : path none k = esc k := rfl
 
 theorem LeafPath.noLeafAbove : ∀ (rest : List String) (v : Val), LeafPath v rest → NoLeafAbove v rest := by
   intro rest
@@ -363,8 +363,8 @@ theorem mergeVal_leafPath (lv rv : Vers) : ∀ (ks : List String) (p : String) (
           | some b' =>
             simp only [hga] at ha
             simp only [hgb] at hb
-            obtain ⟨h1, h2⟩ := ih (p ++ "." ++ k) a' b' ha.2 hb.2
-            have hg : get? (mergeKv lv rv (some p) akv bkv) k = some (mergeVal lv rv (p ++ "." ++ k) a' b') := by
+            obtain ⟨h1, h2⟩ := ih (p ++ "." ++ esc k) a' b' ha.2 hb.2
+            have hg : get? (mergeKv lv rv (some p) akv bkv) k = some (mergeVal lv rv (p ++ "." ++ esc k) a' b') := by
               rw [mergeKv_get _ _ _ _ _ hb.1, hgb, hga]; rfl
             rw [mergeVal_obj_obj]
             refine ⟨?_, ?_⟩
